@@ -3,7 +3,7 @@ From Coq Require Import List ZArith Bool Lia Permutation.
 From SV Require Import C08.Common C08.RoundRobin C08.Sticky C08.StickyDirect C08.Valid C08.ProofsBase C08.ProofsStickyBase
   C08.ProofsStickyEnv C08.ProofsStickyKeep C08.ProofsStickyMove C08.ProofsStickySort C08.ProofsStickySorted C08.ProofsSticky
   C08.ProofsStickyTerm
-  C13.Model C13.ProofsRange C13.ProofsRR C13.ProofsStickyBalanced C13.ProofsStickyFixed C13.ProofsStickyLeave C13.ProofsStickyJoin.
+  C13.Model C13.ProofsRange C13.ProofsRR C13.ProofsStickyBalanced C13.ProofsStickyFixed C13.ProofsStickyLeave C13.ProofsStickyJoin C13.ProofsStickyExt.
 Import ListNotations.
 Open Scope Z_scope.
 
@@ -385,4 +385,42 @@ Proof.
   - assert (Eb : b = m_id newm) by (eapply F1; eassumption). subst b.
     apply holds_In in H3. apply triples_key in H3. apply (vp_members ms ts p V) in H3.
     unfold wf_members in Wc. simpl in Wc. inversion Wc. contradiction.
+Qed.
+
+(* ---- the same with the new member as it really arrives: any user data without claims (nil user data decodes to no partitions,
+   generation 0) ---- *)
+Lemma join_group_equiv : forall ms ts p g newm ge, wf_members (newm :: ms) -> valid_plan ms ts p -> m_ud newm = UD [] ge ->
+  Forall2 member_equiv (newm :: map (report p g) ms) (map (report p g) (newm :: ms)).
+Proof.
+  intros ms ts p g newm ge Wc V Hu. cbn [map]. constructor.
+  - split; [reflexivity|]. split; [reflexivity|]. right. exists ge, (Some g). split; [assumption|]. cbn [report m_ud]. f_equal.
+    destruct (holds p (m_id newm)) as [|[t q] r] eqn:Eh; [reflexivity|]. exfalso.
+    assert (H : In (t, q) (holds p (m_id newm))) by (rewrite Eh; now left). apply holds_In in H. apply triples_key in H. apply (vp_members ms ts p V) in H.
+    unfold wf_members in Wc. simpl in Wc. inversion Wc. contradiction.
+  - clear. induction (map (report p g) ms) as [|a l IH]; constructor; [|assumption]. split; [reflexivity|]. split; [reflexivity | now left].
+Qed.
+
+Theorem sticky_join_no_shuffle_real : forall fuel o ms ts p g newm ge p',
+  wf_members (newm :: ms) -> wf_topics ts -> identical_subscriptions (newm :: ms) ->
+  (forall mm, In mm (newm :: ms) -> NoDup (m_topics mm)) ->
+  (forall t ps, In (t, ps) ts -> In t (m_topics newm)) ->
+  m_ud newm = UD [] ge -> valid_plan ms ts p -> kafka_balanced ms p ->
+  sticky_plan fuel true o (newm :: map (report p g) ms) ts = SOk p' ->
+  forall m x, In x (holds p m) -> In x (holds p' m) \/ In x (holds p' (m_id newm)).
+Proof.
+  intros fuel o ms ts p g newm ge p' Wc Wt Hid Hnd Htop Hu V KB E.
+  rewrite (sticky_plan_equiv fuel true o _ _ ts (join_group_equiv ms ts p g newm ge Wc V Hu)) in E.
+  eapply sticky_join_no_shuffle; eassumption.
+Qed.
+
+Theorem sticky_no_pair_swap_join_real : forall fuel o ms ts p g newm ge p',
+  wf_members (newm :: ms) -> wf_topics ts -> identical_subscriptions (newm :: ms) ->
+  (forall mm, In mm (newm :: ms) -> NoDup (m_topics mm)) ->
+  (forall t ps, In (t, ps) ts -> In t (m_topics newm)) ->
+  m_ud newm = UD [] ge -> valid_plan ms ts p -> kafka_balanced ms p ->
+  sticky_plan fuel true o (newm :: map (report p g) ms) ts = SOk p' -> ~ pair_swap p p'.
+Proof.
+  intros fuel o ms ts p g newm ge p' Wc Wt Hid Hnd Htop Hu V KB E.
+  rewrite (sticky_plan_equiv fuel true o _ _ ts (join_group_equiv ms ts p g newm ge Wc V Hu)) in E.
+  eapply sticky_no_pair_swap_join; eassumption.
 Qed.
